@@ -225,7 +225,12 @@ class P:
                     res.append(it)
             elif t in ('fn', 'const', 'type', 'static', 'trait', 'macro_rules!', 'unsafe'):
                 # not needed: skip to the end of the item
-                while not (self.at(';') or self.at('{')):
+                depth = 0
+                while depth > 0 or not (self.at(';') or self.at('{')):
+                    if self.at('[') or self.at('('):
+                        depth += 1
+                    elif self.at(']') or self.at(')'):
+                        depth -= 1
                     self.eat()
                 if self.at(';'):
                     self.eat(';')
@@ -596,7 +601,10 @@ class P:
         if t == '|':
             self.eat('|')
             self.opt('mut')
-            v = self.eat()
+            if self.at('('):
+                v = self.pattern()             # `|(a, _b)| …`: a tuple pattern
+            else:
+                v = self.eat()
             self.eat('|')
             return ('closure', v, self.expr())
         if t == 'if':
@@ -712,9 +720,28 @@ LEAN_TY = {'usize': 'Nat', 'bool': 'Bool', 'FixedBitSet': 'Rs.BitSet', 'Option<W
            'Vec<MaybeUninit<Item>>': 'Rs.OutVec', 'Poll<Option<Vec<Item>>>': 'Rs.Poll (Option (List Nat))',
            'Poll<Option<Item>>': 'Rs.Poll (Option Nat)', 'Poll<Output>': 'Rs.Poll Nat'}
 
+WAKER_TABLES = {'WakerVec': 'StdVec.ReadinessVec', 'WakerArray': 'StdArr.ReadinessArray'}
+
 def lean_ty(ty, structs):
     if ty in LEAN_TY:
         return LEAN_TY[ty]
+    # the array containers: the same shapes with a length that is a const generic
+    if re.fullmatch(r"\[(S|Fut);\w+\]", ty) or re.fullmatch(r"FutureArray<Fut,\w+>", ty):
+        return 'Rs.Kids'
+    if re.fullmatch(r"OutputArray<\w+,\w+>", ty) or re.fullmatch(r"\[MaybeUninit<(Item|E)>;\w+\]", ty):
+        return 'Rs.OutVec'
+    if re.fullmatch(r"WakerArray<\w+>", ty):
+        return 'WakerArray'
+    if re.fullmatch(r"PollArray<\w+>", ty):
+        return 'Rs.PVec PS.PollState'
+    if re.fullmatch(r"Poll<\[Output;\w+\]>", ty):
+        return 'Rs.Poll (List Nat)'
+    if re.fullmatch(r"Poll<Result<\[T;\w+\],E>>", ty):
+        return 'Rs.Poll (Rs.Result (List Nat))'
+    if re.fullmatch(r"Poll<Result<T,AggregateError<E,\w+>>>", ty):
+        return 'Rs.Poll (Rs.ResultE Nat (List Nat))'
+    if re.fullmatch(r"Poll<Option<\[Item;\w+\]>>", ty):
+        return 'Rs.Poll (Option (List Nat))'
     if re.fullmatch(r"\[bool;\w+\]", ty):
         return 'Rs.BArr'
     if ty in structs or ty == 'Self':
@@ -854,8 +881,8 @@ class Module:
             bt = self.ty(e[1], cx)
             if e[2] == '0' and bt == 'Nat':
                 return 'Nat'            # key.0
-            if bt == 'WakerVec' and e[2] == 'readiness':
-                return 'StdVec.ReadinessVec'
+            if bt in WAKER_TABLES and e[2] == 'readiness':
+                return WAKER_TABLES[bt]
             if bt in self.structs:
                 for f, t in self.structs[bt]:
                     if f == e[2]:
@@ -894,8 +921,8 @@ class Module:
             if rt == 'Rs.Slab' and e[2] in ('len', 'insert'): return 'Nat'
             if rt == 'Rs.Slab' and e[2] == 'is_empty': return 'Bool'
             if rt == 'Rs.BTree' and e[2] in ('contains', 'insert', 'remove'): return 'Bool'
-            if rt == 'WakerVec' and e[2] == 'readiness': return 'StdVec.ReadinessVec'
-            if rt == 'WakerVec' and e[2] == 'get': return 'Option Wk'
+            if rt in WAKER_TABLES and e[2] == 'readiness': return WAKER_TABLES[rt]
+            if rt in WAKER_TABLES and e[2] == 'get': return 'Option Wk'
             if rt == 'Rs.Kids' and e[2] == 'len': return 'Nat'
             if rt == 'Rs.OutVec' and e[2] == 'take': return 'List Nat'
             if (rt or '').startswith('Rs.PVec ') and e[2] in ('ready_indexes', 'pending_indexes', 'consumed_indexes'): return 'List Nat'
@@ -1086,7 +1113,10 @@ class Module:
                 return p, f"(Rs.Poll.ready {atom(t)})"
             if segs in (['Ok'], ['Err']):
                 p, t = self.E(args[0], cx)
-                return p, f"(Rs.Result.{segs[0].lower()} {atom(t)})"
+                rn = 'Rs.ResultE' if 'Rs.ResultE' in (cx.ret or '') else 'Rs.Result'
+                return p, f"({rn}.{segs[0].lower()} {atom(t)})"
+            if segs == ['AggregateError', 'new']:
+                return self.E(args[0], cx)
             if segs[-1] in ('get_pin_mut_from_vec', 'get_pin_mut') and len(args) == 2 and self.ty(args[0], cx) == 'Rs.Kids':
                 pk, tk = self.E(args[0], cx)
                 pi, ti = self.E(args[1], cx)
@@ -1119,6 +1149,22 @@ class Module:
                 p, t = self.E(args[0], cx)
                 v = cx.fresh()
                 return p + [f"let {v} ← WakerVec.new {atom(t)}"], v
+            if segs == ['WakerArray', 'new'] and cx.consts:
+                v = cx.fresh()
+                return [f"let {v} ← WakerArray.new {cx.consts[0]}"], v
+            if segs == ['OutputArray', 'uninit'] and cx.consts:
+                return [], f"(Rs.OutVec.uninit {cx.consts[0]})"
+            if segs == ['PollArray', 'new_pending'] and cx.consts:
+                return [], f"(Rs.PVec.replicate {cx.consts[0]} PS.PollState.pending)"
+            if segs == ['FutureArray', 'new']:
+                return self.E(args[0], cx)
+            if segs == ['array', 'from_fn'] and cx.consts and len(args) == 1 and args[0][0] == 'closure' \
+                    and args[0][2] == ('call', ['MaybeUninit', 'uninit'], []):
+                return [], f"(Rs.OutVec.uninit {cx.consts[0]})"
+            if segs[-1] == 'array_assume_init':
+                p, t = self.E(args[0], cx)
+                v = cx.fresh()
+                return p + [f"let {v} ← Rs.OutVec.assumeInit {atom(t)}"], v
             if segs == ['Some']:
                 p, t = self.E(args[0], cx)
                 return p, f"(some {atom(t)})"
@@ -1150,7 +1196,7 @@ class Module:
                 cs = ''.join(' ' + c for c in sig['consts'])
                 return pre + [f"let {v} ← {self.fname(sname, segs[1])}{cs} {' '.join(ts)}".rstrip()], v
             raise Unsupported(f"call {'::'.join(segs)}")
-        if k == 'mcall' and e[2] == 'readiness' and not e[3] and self.ty(e[1], cx) == 'WakerVec':
+        if k == 'mcall' and e[2] == 'readiness' and not e[3] and self.ty(e[1], cx) in WAKER_TABLES:
             p, t = self.E(e[1], cx)
             return p, f"{t}.readiness"
         if self.is_uninit_vec(e):
@@ -1256,6 +1302,10 @@ class Module:
             pr, tr = self.E(recv, cx)
             pa, ta = self.E(args[0], cx)
             return pr + pa, f"(WakerVec.get {atom(tr)} {atom(ta)})"
+        if rt == 'WakerArray' and name == 'get' and cx.consts:
+            pr, tr = self.E(recv, cx)
+            pa, ta = self.E(args[0], cx)
+            return pr + pa, f"(WakerArray.get {cx.consts[0]} {atom(tr)} {atom(ta)})"
         if rt == 'Member' and name in ('poll', 'poll_next'):
             return self.child_poll(e, cx)
         if (rt or '').startswith('Rs.PVec ') and name == 'all' and len(args) == 1 and args[0][0] == 'closure':
@@ -1351,7 +1401,8 @@ class Module:
         recv, name, args = e[1], e[2], e[3]
         pm, tm = self.E(recv, cx)
         pw, tw = self.E(args[0], cx)
-        wf = [f for f, t in self.structs.get(cx.struct, []) if t == 'WakerVec']
+        wf = [f for f, t in self.structs.get(cx.struct, []) if t in WAKER_TABLES]
+        wty = [t for f, t in self.structs.get(cx.struct, []) if t in WAKER_TABLES]
         cx.uses_env = True
         cx.mutations += 1
         fn = 'Rs.pollFut' if name == 'poll' else 'Rs.pollStream'
@@ -1362,7 +1413,8 @@ class Module:
         if len(wf) == 1:
             place = ('field', ('field', ('path', ['self']), wf[0]), 'readiness')
             pr, tr = self.E(place, cx)
-            lines = pm + pw + pr + [f"let ({nr}, env__, {nres}) ← {fn} (fun i r => StdVec.InlineWakerVec.wake ⟨i⟩ r) {atom(tr)} env__ {atom(tm)} {atom(wk)}"]
+            wake = "StdVec.InlineWakerVec.wake ⟨i⟩ r" if wty[0] == 'WakerVec' else f"StdArr.InlineWakerArray.wake {cx.consts[0]} ⟨i⟩ r"
+            lines = pm + pw + pr + [f"let ({nr}, env__, {nres}) ← {fn} (fun i r => {wake}) {atom(tr)} env__ {atom(tm)} {atom(wk)}"]
             lines += self.assign_place(place, nr, cx)
             return lines, nres
         if wf:
@@ -1377,7 +1429,7 @@ class Module:
         e = self.resolve(e, cx)
         if e[0] in ('deref', 'ref', 'paren'):
             return self.place_path(e[-1], cx)
-        if e[0] == 'mcall' and e[2] == 'readiness' and not e[3] and self.ty(e[1], cx) == 'WakerVec':
+        if e[0] == 'mcall' and e[2] == 'readiness' and not e[3] and self.ty(e[1], cx) in WAKER_TABLES:
             r, fs = self.place_path(e[1], cx)
             return r, fs + ['readiness']
         if e[0] == 'path' and len(e[1]) == 1:
@@ -1721,6 +1773,27 @@ class Module:
             lines, _ = self.E(e, cx)
         return [pad + l for l in lines] + self.S(rest, cx, ind)
 
+    def closure_cond(self, clo, pat):
+        """the body of `|(a, _b)| cond` with the closure's names replaced, position by position, by the loop pattern's"""
+        cp = clo[1]
+        if not (isinstance(cp, tuple) and cp[0] == 'ptuple' and len(cp[1]) == len(pat[1])):
+            raise Unsupported("filter closure")
+        ren = {}
+        for a, b in zip(cp[1], pat[1]):
+            if a[0] == 'pbind':
+                ren[a[1]] = b[1]
+            elif not (a[0] == 'pwild' or (a[0] == 'pctor' and len(a[1]) == 1 and a[1][0].startswith('_') and a[2] is None)):
+                raise Unsupported("filter closure pattern")
+        def rn(x):
+            if isinstance(x, tuple):
+                if x[0] == 'path' and len(x[1]) == 1 and x[1][0] in ren:
+                    return ('path', [ren[x[1][0]]])
+                return tuple(rn(y) for y in x)
+            if isinstance(x, list):
+                return [rn(y) for y in x]
+            return x
+        return rn(clo[2])
+
     def for_stmt(self, s, rest, cx, ind):
         """`for x in <list> { body }` with `break`: a fold with early exit over the loop-carried variables"""
         pad = '  ' * ind
@@ -1731,6 +1804,36 @@ class Module:
         if src_[0] == 'range' and src_[1] == ('num', 0) and src_[2] is not None:
             it = ('call', ['range_upto'], [src_[2]])          # `for i in 0..n`
             src_ = it
+        if pat[0] == 'ptuple' and len(pat[1]) == 2 and pat[1][0][0] == 'ptuple' and len(pat[1][0][1]) == 2 \
+                and all(q[0] == 'pbind' for q in pat[1][0][1] + [pat[1][1]]) and src_[0] == 'mcall' and src_[2] == 'zip' \
+                and len(src_[3]) == 1 and self.resolve(src_[1], cx)[0] == 'mcall' and self.resolve(src_[1], cx)[2] == 'zip':
+            # `for ((fut, out), st) in <children>.zip(<outputs>.iter_mut()).zip(<states>.iter_mut())`: position by position
+            inner = self.resolve(src_[1], cx)
+            strip = lambda q: self.resolve(q[1], cx) if (q[0] == 'mcall' and q[2] in ('iter_mut', 'iter') and not q[3]) else q
+            kids_it = self.resolve(inner[1], cx)
+            o_ = strip(self.resolve(inner[3][0], cx))
+            s_ = strip(self.resolve(src_[3][0], cx))
+            if self.ty(o_, cx) == 'Rs.OutVec' and (self.ty(s_, cx) or '').startswith('Rs.PVec '):
+                fv, ov, sv = pat[1][0][1][0][1], pat[1][0][1][1][1], pat[1][1][1]
+                idx = f"idx_{cx.fresh()}"
+                def rw3(x):
+                    if isinstance(x, tuple):
+                        if x == ('path', [sv]):
+                            return ('index', s_, ('path', [idx]))
+                        if x == ('path', [ov]):
+                            return ('index', o_, ('path', [idx]))
+                        return tuple(rw3(y) for y in x)
+                    if isinstance(x, list):
+                        return [rw3(y) for y in x]
+                    return x
+                s2 = ('for', ('ptuple', [('pbind', idx), ('pbind', fv)]), ('mcall', ('mcall', kids_it, 'iter_mut', []), 'enumerate', []), rw3(list(body)))
+                return self.for_stmt(s2, rest, cx, ind)
+            raise Unsupported("zip of three iterators")
+        if pat[0] == 'ptuple' and len(pat[1]) == 2 and all(q[0] == 'pbind' for q in pat[1]) and src_[0] == 'mcall' \
+                and src_[2] == 'filter' and len(src_[3]) == 1 and src_[3][0][0] == 'closure':
+            # `for (a, b) in <zip>.filter(|(a, _b)| cond) { body }` = `for (a, b) in <zip> { if cond { body } }`
+            clo = src_[3][0]
+            return self.for_stmt(('for', pat, src_[1], [('expr', ('if', self.closure_cond(clo, pat), list(body), None))]), rest, cx, ind)
         if pat[0] == 'ptuple' and len(pat[1]) == 2 and all(q[0] == 'pbind' for q in pat[1]) and src_[0] == 'mcall' \
                 and src_[2] == 'zip' and len(src_[3]) == 1:
             # `for (state, output) in <states>.iter_mut().zip(<outputs>.iter_mut())`: position by position
@@ -2106,7 +2209,7 @@ class Module:
         # does it poll children?  then the environment (scripts, handed-out wakers, event trace) is threaded through
         cx.has_env = (bool(re.search(r'"mcall", .{0,400}?"poll(_next)?"', json.dumps(body))) or
                       (name == 'drop' and selfkind == 'mut')) and \
-            any(t in ('WakerVec', 'Rs.Kids', 'Rs.Slab') for _, t in self.structs.get(sname, []))
+            any(t in ('WakerVec', 'WakerArray', 'Rs.Kids', 'Rs.Slab') for _, t in self.structs.get(sname, []))
         if cx.has_env:
             binders += " (env__ : World)"
         lines = self.S(body, cx, 1)
@@ -2196,20 +2299,40 @@ UNITS = [
     ('TryJoinV', [('src/future/try_join/vec.rs', ['TryJoin'])]),
     ('ZipV',   [('src/stream/zip/vec.rs', ['Zip'])]),
     ('ChainV', [('src/stream/chain/vec.rs', ['Chain'])]),
+    ('JoinA',  [('src/future/join/array.rs', ['Join'])]),
+    ('TryJoinA', [('src/future/try_join/array.rs', ['TryJoin'])]),
+    ('MergeA', [('src/stream/merge/array.rs', ['Merge'])]),
+    ('ZipA',   [('src/stream/zip/array.rs', ['Zip'])]),
+    ('ChainA', [('src/stream/chain/array.rs', ['Chain'])]),
+    ('RaceA',  [('src/future/race/array.rs', ['Race'])]),
+    ('RaceOkA', [('src/future/race_ok/array/mod.rs', ['RaceOk'])]),
 ]
 SKIP_FNS = {('InlineWakerArray', 'new'), ('InlineWakerVec', 'new')}
 
 GROUPS = {'Std': ['StdArr', 'StdVec'], 'Dir': ['DirArr', 'DirVec'], 'Idx': ['Idx'], 'PS': ['PS'], 'Grp': ['GrpF', 'GrpS'],
-          'Fam': ['MergeV', 'RaceV'], 'Fam2': ['JoinV'], 'Fam3': ['TryJoinV'], 'Fam4': ['ZipV'], 'Fam5': ['ChainV']}
+          'Fam': ['MergeV', 'RaceV'], 'Fam2': ['JoinV'], 'Fam3': ['TryJoinV'], 'Fam4': ['ZipV'], 'Fam5': ['ChainV'],
+          'Arr1': ['JoinA'], 'Arr2': ['TryJoinA'], 'Arr3': ['MergeA'], 'Arr4': ['ZipA'], 'Arr5': ['ChainA'], 'Arr6': ['RaceA'], 'Arr7': ['RaceOkA']}
 GROUP_IMPORTS = {'Std': ['Fc.Kernel'], 'Grp': ['FcGen.KSrcStd', 'FcGen.KSrcPS', 'Fc.RustEnv'],
                  'Fam': ['FcGen.KSrcStd', 'FcGen.KSrcPS', 'FcGen.KSrcIdx', 'Fc.RustEnv'],
                  'Fam2': ['FcGen.KSrcStd', 'FcGen.KSrcPS', 'Fc.RustEnv'],
                  'Fam3': ['FcGen.KSrcStd', 'FcGen.KSrcPS', 'Fc.RustEnv'],
                  'Fam4': ['FcGen.KSrcStd', 'FcGen.KSrcPS', 'Fc.RustEnv'],
-                 'Fam5': ['FcGen.KSrcStd', 'FcGen.KSrcPS', 'Fc.RustEnv']}
-GROUP_DEPS = {'Grp': ['Std', 'PS'], 'Fam': ['Std', 'PS', 'Idx'], 'GrpPoll': ['Grp'], 'RaceV': ['Fam'], 'MergeV': ['Fam'], 'JoinV': ['Fam2'], 'TryJoinV': ['Fam3'], 'ChainV': ['Fam5', 'Fam4'], 'ZipV': ['Fam4', 'Fam5'], 'Fam2': ['Std', 'PS'], 'Fam3': ['Std', 'PS'], 'Fam4': ['Std', 'PS'], 'Fam5': ['Std', 'PS']}
+                 'Fam5': ['FcGen.KSrcStd', 'FcGen.KSrcPS', 'Fc.RustEnv'],
+                 'Arr1': ['FcGen.KSrcStd', 'FcGen.KSrcPS', 'Fc.RustEnv'], 'Arr2': ['FcGen.KSrcStd', 'FcGen.KSrcPS', 'Fc.RustEnv'],
+                 'Arr3': ['FcGen.KSrcStd', 'FcGen.KSrcPS', 'FcGen.KSrcIdx', 'Fc.RustEnv'], 'Arr4': ['FcGen.KSrcStd', 'FcGen.KSrcPS', 'Fc.RustEnv'],
+                 'Arr5': ['FcGen.KSrcStd', 'FcGen.KSrcPS', 'Fc.RustEnv'], 'Arr6': ['FcGen.KSrcStd', 'FcGen.KSrcPS', 'FcGen.KSrcIdx', 'Fc.RustEnv'],
+                 'Arr7': ['FcGen.KSrcStd', 'FcGen.KSrcPS', 'Fc.RustEnv']}
+GROUP_DEPS = {'Grp': ['Std', 'PS'], 'Fam': ['Std', 'PS', 'Idx'], 'GrpPoll': ['Grp'], 'RaceV': ['Fam'], 'MergeV': ['Fam'], 'JoinV': ['Fam2'], 'TryJoinV': ['Fam3'], 'ChainV': ['Fam5', 'Fam4'], 'ZipV': ['Fam4', 'Fam5'], 'Fam2': ['Std', 'PS'], 'Fam3': ['Std', 'PS'], 'Fam4': ['Std', 'PS'], 'Fam5': ['Std', 'PS'],
+              'Arr1': ['Std', 'PS'], 'Arr2': ['Std', 'PS'], 'Arr3': ['Std', 'PS', 'Idx'], 'Arr4': ['Std', 'PS'], 'Arr5': ['Std', 'PS'],
+              'Arr6': ['Std', 'PS', 'Idx'], 'Arr7': ['Std', 'PS'],
+              # the array proofs reuse the container-independent lemmas of the Vec proof of the SAME family (the lemma files
+              # import that family's Vec statements, hence its generated file)
+              'JoinA': ['Arr1', 'Fam2'], 'TryJoinA': ['Arr2', 'Fam3'], 'MergeA': ['Arr3', 'Fam'], 'ZipA': ['Arr4'],
+              'ChainA': ['Arr5', 'Idx'], 'RaceA': ['Arr6', 'Fam'], 'RaceOkA': ['Arr7']}
 # groups of tie theorems that have no generated file of their own (they talk about functions of another group's file)
-VIRTUAL_GROUPS = {'GrpPoll': ['GrpF', 'GrpS'], 'RaceV': ['RaceV'], 'MergeV': ['MergeV'], 'JoinV': ['JoinV'], 'ChainV': ['ChainV'], 'ZipV': ['ZipV'], 'TryJoinV': ['TryJoinV']}
+VIRTUAL_GROUPS = {'GrpPoll': ['GrpF', 'GrpS'], 'RaceV': ['RaceV'], 'MergeV': ['MergeV'], 'JoinV': ['JoinV'], 'ChainV': ['ChainV'], 'ZipV': ['ZipV'], 'TryJoinV': ['TryJoinV'],
+                  'JoinA': ['JoinA'], 'TryJoinA': ['TryJoinA'], 'MergeA': ['MergeA'], 'ZipA': ['ZipA'], 'ChainA': ['ChainA'],
+                  'RaceA': ['RaceA'], 'RaceOkA': ['RaceOkA']}
 # src/utils/wakers/vec/waker_vec.rs (std) is Arc / closure glue around the readiness set: modelled by hand here —
 # a table of `len` sub-wakers next to the shared set; `resize` resizes both
 WAKERVEC_PRELUDE = '''/-- hand-written model of `WakerVec` (utils/wakers/vec/waker_vec.rs, std): `nwakers` sub-wakers + the shared set -/
@@ -2228,6 +2351,17 @@ def WakerVec.resize (self : WakerVec) (len : Nat) : Option (WakerVec × Unit) :=
 /-- `wakers.get(index)`: the sub-waker of that slot -/
 def WakerVec.get (self : WakerVec) (index : Nat) : Option Wk :=
   if index < self.nwakers then some (.sub index) else none
+
+/-- hand-written model of `WakerArray<N>` (utils/wakers/array/waker_array.rs, std): `N` sub-wakers + the shared set -/
+structure WakerArray where
+  readiness : StdArr.ReadinessArray
+
+def WakerArray.new (N : Nat) : Option WakerArray := do
+  let r ← StdArr.ReadinessArray.new N
+  pure { readiness := r }
+
+def WakerArray.get (N : Nat) (self : WakerArray) (index : Nat) : Option Wk :=
+  if index < N then some (.sub index) else none
 '''
 GROUP_PRELUDE = {}
 GROUP_POSTLUDE = {'Std': WAKERVEC_PRELUDE}
@@ -2248,6 +2382,11 @@ REQUIRED = {
     'Fam': ['MergeV.Merge.poll_next', 'RaceV.Race.poll'],
     'GrpPoll': ['GrpF.FutureGroup.poll_next_inner', 'GrpS.StreamGroup.poll_next_inner'],
     'RaceV': ['RaceV.Race.poll'],
+    'JoinA': ['JoinA.Join.poll', 'JoinA.Join.drop', 'JoinA.Join.new'],
+    'TryJoinA': ['TryJoinA.TryJoin.poll', 'TryJoinA.TryJoin.drop', 'TryJoinA.TryJoin.new'],
+    'MergeA': ['MergeA.Merge.poll_next', 'MergeA.Merge.new'], 'ZipA': ['ZipA.Zip.poll_next', 'ZipA.Zip.drop', 'ZipA.Zip.new'],
+    'ChainA': ['ChainA.Chain.poll_next'], 'RaceA': ['RaceA.Race.poll'],
+    'RaceOkA': ['RaceOkA.RaceOk.poll', 'RaceOkA.RaceOk.drop'],
     'MergeV': ['MergeV.Merge.poll_next'],
     'JoinV': ['JoinV.Join.poll', 'JoinV.Join.drop', 'JoinV.Join.new'],
     'ChainV': ['ChainV.Chain.poll_next'],
@@ -2257,6 +2396,11 @@ REQUIRED = {
     'Fam3': ['TryJoinV.TryJoin.poll', 'TryJoinV.TryJoin.drop', 'TryJoinV.TryJoin.new'],
     'Fam4': ['ZipV.Zip.poll_next', 'ZipV.Zip.drop', 'ZipV.Zip.new'],
     'Fam5': ['ChainV.Chain.poll_next'],
+    'Arr1': ['JoinA.Join.poll', 'JoinA.Join.drop', 'JoinA.Join.new'],
+    'Arr2': ['TryJoinA.TryJoin.poll', 'TryJoinA.TryJoin.drop', 'TryJoinA.TryJoin.new'],
+    'Arr3': ['MergeA.Merge.poll_next', 'MergeA.Merge.new'], 'Arr4': ['ZipA.Zip.poll_next', 'ZipA.Zip.drop', 'ZipA.Zip.new'],
+    'Arr5': ['ChainA.Chain.poll_next'], 'Arr6': ['RaceA.Race.poll'],
+    'Arr7': ['RaceOkA.RaceOk.poll', 'RaceOkA.RaceOk.drop'],
     'Grp': ['GrpF.FutureGroup.' + f for f in ('with_capacity', 'len', 'capacity', 'is_empty', 'remove', 'contains_key', 'reserve', 'insert')]
            + ['GrpS.StreamGroup.' + f for f in ('with_capacity', 'len', 'capacity', 'is_empty', 'remove', 'contains_key', 'reserve', 'insert')],
 }
@@ -2317,11 +2461,11 @@ def translate_unit(repo, ns, files, report, ext=None):
             mod.out.append(f"def {sname}.extraFields : List String := {json.dumps(r['extra'] if r else [])}")
             mod.out.append("")
     for sname in list(mod.structs):
-        if sname in ('FutureGroup', 'StreamGroup', 'Merge', 'Race', 'Join', 'TryJoin', 'Zip', 'Chain') and sname not in getattr(mod, 'ext_names', ()):
+        if sname in ('FutureGroup', 'StreamGroup', 'Merge', 'Race', 'Join', 'TryJoin', 'Zip', 'Chain', 'RaceOk') and sname not in getattr(mod, 'ext_names', ()):
             tags = {'Rs.Slab': 'roleSlab', 'WakerVec': 'roleWakers', 'Rs.PVec PS.PollState': 'roleStates',
                     'Rs.BTree': 'roleKeys', 'Nat': 'roleCapacity', 'List Nat': 'roleQueue'}
-            if sname in ('Merge', 'Race', 'Join', 'TryJoin', 'Zip', 'Chain'):
-                tags = {'Rs.Kids': 'roleKids', 'Idx.Indexer': 'roleIndexer', 'WakerVec': 'roleWakers',
+            if sname in ('Merge', 'Race', 'Join', 'TryJoin', 'Zip', 'Chain', 'RaceOk'):
+                tags = {'Rs.Kids': 'roleKids', 'Idx.Indexer': 'roleIndexer', 'WakerVec': 'roleWakers', 'WakerArray': 'roleWakers',
                         'Rs.PVec PS.PollState': 'roleStates', 'Nat': 'roleCount', 'Bool': 'roleDone', 'Rs.OutVec': 'roleItems'}
             fl = mod.structs[sname]
             roles = {}
@@ -2389,7 +2533,7 @@ def translate(repo):
                "", "set_option linter.unusedVariables false", "",
                "namespace Fc.Src", "open Fc", ""]
         ext = None
-        if g in ('Grp', 'Fam', 'Fam2', 'Fam3', 'Fam4', 'Fam5'):
+        if g in ('Grp', 'Fam', 'Fam2', 'Fam3', 'Fam4', 'Fam5') or g.startswith('Arr'):
             mods = report.get('_mods', {})
             ext = {'structs': {}, 'enums': {}, 'fns': {}}
             sv, ps = mods.get('StdVec'), mods.get('PS')
@@ -2406,6 +2550,13 @@ def translate(repo):
             ext['structs']['WakerVec'] = [('nwakers', 'Nat'), ('readiness', 'StdVec.ReadinessVec')]
             ext['fns'][('WakerVec', 'new')] = dict(selfkind=None, params=[('len', 'usize')], ret='WakerVec', consts=[])
             ext['fns'][('WakerVec', 'resize')] = dict(selfkind='mut', params=[('len', 'usize')], ret='Unit', consts=[])
+            sa = mods.get('StdArr')
+            if sa and 'ReadinessArray' in sa.structs:
+                ext['structs']['StdArr.ReadinessArray'] = sa.structs['ReadinessArray']
+                for (s_, n), sig in sa.fns.items():
+                    if s_ == 'ReadinessArray':
+                        ext['fns'][('StdArr.ReadinessArray', n)] = sig
+            ext['structs']['WakerArray'] = [('readiness', 'StdArr.ReadinessArray')]
             ix = mods.get('Idx')
             if ix and 'Indexer' in ix.structs:
                 ext['structs']['Idx.Indexer'] = ix.structs['Indexer']
